@@ -607,8 +607,37 @@ func runC11_12(c *core.Ctx) {
 						okk, why = false, "a parameter"
 					}
 				}
+				if okk && defs > 0 {
+					// … and has not been linked again since: no pushFront/pushBack of the node on a path from its definition to here
+					const fLinked = 1
+					p := &flow.Problem{Must: false}
+					p.Node = func(b *flow.Block, i int, nd ast.Node, in uint64) uint64 {
+						if nd == ast.Node(as) {
+							return in
+						}
+						if d, ok := nd.(*ast.AssignStmt); ok {
+							for _, dl := range d.Lhs {
+								if flow.ObjOf(f.Info, dl) == types.Object(who) {
+									in &^= fLinked
+								}
+							}
+						}
+						for _, call := range flow.Calls(nd) {
+							if (flow.IsCall(f.Info, call, a.pushFront) || flow.IsCall(f.Info, call, a.pushBack)) && len(call.Args) == 1 && flow.ObjOf(f.Info, call.Args[0]) == types.Object(who) {
+								in |= fLinked
+							}
+						}
+						return in
+					}
+					sol := f.Graph().Solve(p)
+					sol.Walk(func(b *flow.Block, i int, nd ast.Node, before uint64) {
+						if nd == ast.Node(as) && before&fLinked != 0 && f.Obj != a.pushFront && f.Obj != a.pushBack {
+							okk, why = false, "pushed back"
+						}
+					})
+				}
 				c.Check(okk && defs > 0, f.Name, construct, as.Pos(), "the node was taken out of the list by pop() (or is new) when its buffer changes",
-					"the buffer of node "+who.Name()+" is assigned while the node may still be linked in the list (it comes from "+why+", not from pop()): the byte counter no longer equals the sum of the linked segments, so Buffered() – and with it elastic.Buffer.Buffered and Conn.OutboundBuffered – overstate what is queued")
+					"the buffer of node "+who.Name()+" is assigned while the node may still be linked in the list ("+map[bool]string{true: "it was pushed back into the list before this assignment", false: "it comes from " + why + ", not from pop()"}[why == "pushed back"]+"): the byte counter no longer equals the sum of the linked segments, so Buffered() – and with it elastic.Buffer.Buffered and Conn.OutboundBuffered – overstate what is queued")
 			}
 			return true
 		})
